@@ -257,9 +257,20 @@ def qmul_unit(k, x):
 
 
 def gauss_record(g):
-    return ('[name |-> "%s", modes |-> <<%s>>, P |-> %s, A |-> %s, alpha |-> <<%s>>, passive |-> %s]'
+    return ('[name |-> "%s", modes |-> <<%s>>, P |-> %s, A |-> %s, alpha |-> <<%s>>, passive |-> %s, chan |-> %s]'
             % (g["name"], ", ".join(map(str, g["modes"])), tla_qmat(g["P"]), tla_qmat(g["A"]), ", ".join(tla_q(a) for a in g["alpha"]),
-               "TRUE" if g["passive"] else "FALSE"))
+               "TRUE" if g["passive"] else "FALSE", "TRUE" if g.get("chan") else "FALSE"))
+
+
+ATTEN = {"pi/4": (q(ring(0, 1), 2), q(ring(1), 2), np.pi / 4), "3pi/4": (q(ring(0, -1), 2), q(ring(1), 2), 3 * np.pi / 4),
+         "atan(4/3)": (q(ring(3), 5), q(ring(16), 25), np.arctan2(4.0, 3.0)), "pi-atan(4/3)": (q(ring(-3), 5), q(ring(16), 25), np.pi - np.arctan2(4.0, 3.0))}
+
+
+def attenuator(i, key, nbar=0):
+    """Attenuator(theta, mean_thermal_excitation): a -> cos(theta) a + sin(theta) b; record fields: P = cos, A = sin^2, alpha = nbar"""
+    c, s2, th = ATTEN[key]
+    return {"name": f"Attenuator({key},{nbar})", "modes": (i,), "P": [[c]], "A": [[s2]], "alpha": [q(ring(nbar))], "passive": False, "chan": True,
+            "mk": lambda pq, th=th, nb=nbar: pq.Attenuator(theta=th, mean_thermal_excitation=nb)}
 
 
 def _from_passive(pg):
@@ -339,6 +350,9 @@ def gaussian_catalogue(d, rng=None, size=None):
         for (a, b) in ((1, 2), (1, 1), (2, 1)):
             for k in range(4):
                 gates.append(displacement(i, a, b, k))
+        for key in ATTEN:
+            gates.append(attenuator(i, key, 0))
+        gates.append(attenuator(i, "pi/4", 1))
         gates.append(displacement(i, 1, 2, 0, "PositionDisplacement"))
         gates.append(displacement(i, -1, 1, 0, "MomentumDisplacement"))
     pairs = [(i, j) for i in range(d) for j in range(d) if i != j]
